@@ -119,8 +119,13 @@ func ZZ_C17_Addn() {
 	}
 	g0 := zzNib(s, gi, gof)
 	e0 := uint64(s.Estimate(h))
+	vfStub("CountMinSketch).reset") // reset has its own lemmas; here it only matters whether it is called
 	s.Addn(h, n)
 	vfReach("after-addn")
+	// the sample period survives a bulk addition: either Additions stays below SampleSize or an aging reset ran
+	// (with a stubbed reset Additions is whatever the call left; the real reset brings it below, ZZ_C17_Reset)
+	resets := vfStubCalls("CountMinSketch).reset")
+	vfAssert("addn-keeps-period-invariant", vfOr(resets >= 1, s.Additions < s.SampleSize))
 	for i := 0; i < 4; i++ {
 		vfAssert("addn-counter", zzNib(s, idx[i], off[i]) == zzMin(old[i]+uint64(n), 15))
 	}
